@@ -54,3 +54,6 @@ Definition link_leaves_board (e c : chip) (l : Z) : Prop :=
 Definition squarest (k a b : Z) : Prop :=
   a * b = k /\ 1 <= b <= a /\
   forall a' b', a' * b' = k -> 1 <= b' <= a' -> a - b <= a' - b'.
+
+(* v is representable in a signed two's-complement integer of N bits (numpy intN) *)
+Definition fits (N v : Z) : Prop := - 2 ^ (N - 1) <= v < 2 ^ (N - 1).
